@@ -164,6 +164,7 @@ int *arrNewPat(int n, int *len) {
     sim_handout(a, "newarr");
     return a;
 }
+void arrFillOut(int n, double *out) { Guard g; for (int i = 0; i <= n; i++) out[i] = 0.5 * i; }
 int arrSum(const int *arr, int n) { Guard g; int s = 0; for (int i = 0; i < n; i++) s += arr[i]; return s + 1000000 * n; }
 void charGrow(char *s) { Guard g; std::strcat(s, "!!"); }
 int charArrLen(char **names, int n) { Guard g; int t = 0; for (int i = 0; i < n; i++) if (names[i]) t += static_cast<int>(std::strlen(names[i])) + 100; return t; }
